@@ -108,8 +108,11 @@ META["C06"] = {
     "note": "Arithmetic, comparison, move and literal templates, dispatch tables, and - R-MEM - the memory-management sequences "
             "(store/load of 0..7 values across linked blocks, share, erase, acquire with both free lists, lazy erasure of children) "
             "validated on every path of the emitted code against a reference semantics of the reference-counting scheme, for "
-            "contexts straddling the register/spill boundary. Statement-level composition (which contexts Let/Switch/Create pass), "
-            "closures' code pointers, jump tables and whole-program behaviour are not decided.",
+            "contexts straddling the register/spill boundary; R-PMOVES (parallel moves over all small assignment maps); and R-STMT: the "
+            "generic statement-level code generation instantiated at this backend and validated per statement kind (let, literal, op, "
+            "switch incl. dispatch and per-clause loads, create incl. method entry, invoke, if, substitute incl. reference counts) "
+            "against the AxCut machine step, with the context handed to the next statement checked. Whole-program behaviour (that "
+            "the steps compose: label resolution across definitions, the entry sequence beyond R-ABI) is not decided.",
     "technique": "static analysis: abstract interpretation of MIR emission functions + symbolic execution of the emitted instruction templates (syntactic equality, no solver)",
 }
 META["C07"] = {
@@ -122,8 +125,11 @@ META["C07"] = {
     "note": "Arithmetic, comparison, move and literal templates, dispatch tables, and - R-MEM - the memory-management sequences "
             "(store/load of 0..7 values across linked blocks, share, erase, acquire with both free lists, lazy erasure of children) "
             "validated on every path of the emitted code against a reference semantics of the reference-counting scheme, for "
-            "contexts straddling the register/spill boundary. Statement-level composition (which contexts Let/Switch/Create pass), "
-            "closures' code pointers, jump tables and whole-program behaviour are not decided.",
+            "contexts straddling the register/spill boundary; R-PMOVES (parallel moves over all small assignment maps); and R-STMT: the "
+            "generic statement-level code generation instantiated at this backend and validated per statement kind (let, literal, op, "
+            "switch incl. dispatch and per-clause loads, create incl. method entry, invoke, if, substitute incl. reference counts) "
+            "against the AxCut machine step, with the context handed to the next statement checked. Whole-program behaviour (that "
+            "the steps compose: label resolution across definitions, the entry sequence beyond R-ABI) is not decided.",
     "technique": "static analysis: abstract interpretation of MIR emission functions + symbolic execution of the emitted instruction templates (syntactic equality, no solver)",
 }
 META["C08"] = {
@@ -136,8 +142,11 @@ META["C08"] = {
     "note": "Arithmetic, comparison, move and literal templates, dispatch tables, and - R-MEM - the memory-management sequences "
             "(store/load of 0..7 values across linked blocks, share, erase, acquire with both free lists, lazy erasure of children) "
             "validated on every path of the emitted code against a reference semantics of the reference-counting scheme, for "
-            "contexts straddling the register/spill boundary. Statement-level composition (which contexts Let/Switch/Create pass), "
-            "closures' code pointers, jump tables and whole-program behaviour are not decided. The RISC-V backend cannot print (see C18/C12 known finding).",
+            "contexts straddling the register/spill boundary; R-PMOVES (parallel moves over all small assignment maps); and R-STMT: the "
+            "generic statement-level code generation instantiated at this backend and validated per statement kind (let, literal, op, "
+            "switch incl. dispatch and per-clause loads, create incl. method entry, invoke, if, substitute incl. reference counts) "
+            "against the AxCut machine step, with the context handed to the next statement checked. Whole-program behaviour (that "
+            "the steps compose: label resolution across definitions, the entry sequence beyond R-ABI) is not decided. The RISC-V backend cannot print (see C18/C12 known finding).",
     "technique": "static analysis: abstract interpretation of MIR emission functions + symbolic execution of the emitted instruction templates (syntactic equality, no solver)",
 }
 META["C13"] = {
